@@ -104,7 +104,12 @@ Print Assumptions C19_stop_refuted.
 
 (** Outside that signature — no Unlock / Close calls Stop() on a renewer that has left its select — for every schedule and
     every hold: after Unlock of the hold has returned, no Renew of it reaches the server (or is attempted on a closed
-    connection) and its renewer does not panic; the goroutine of an unlocked hold has returned. *)
+    connection) and its renewer does not panic; the goroutine of an unlocked hold has returned. Schedules may run an
+    Unlock in its three steps (IUnlockBegin: the renewer is stopped FIRST; IUnlockSend: the RPC reaches the server;
+    IUnlockEnd: the reply is back) with virtual time and renew ticks in between — request or reply in flight, or
+    rpcWithRetry asleep after an Unavailable attempt; [p_stop] then counts from the BEGINNING of the call (TUnlockCall):
+    during the whole call no Renew of the hold is sent and nothing of its renewer panics — stronger than the property's
+    "once Unlock has returned", and true of the code because Unlock stops the renewer before it sends. *)
 Theorem C19_stop_holds_outside : ∀ cc sched j,
   wf_sched cc sched = true → excluded_stopdrop cc sched = false →
   p_stop j (cs_trace (run cc sched)) = true ∧
@@ -116,7 +121,11 @@ Example C19_stop_ex :
   excluded_stopdrop cc_auto stopdrop_witness = true ∧ excluded_stopdrop cc_auto stopdrop_witness_post = true ∧
   p_stop 0 (cs_trace (run cc_auto stopdrop_witness_post)) = false ∧
   wf_sched cc_auto good_witness = true ∧ excluded_stopdrop cc_auto good_witness = false ∧
-  p_stop 1 (cs_trace (run cc_auto good_witness)) = true.
+  p_stop 1 (cs_trace (run cc_auto good_witness)) = true ∧
+  (* an Unlock whose reply stays in flight for two renew intervals *)
+  wf_sched cc_auto stepped_unlock_witness = true ∧ excluded_stopdrop cc_auto stepped_unlock_witness = false ∧
+  p_stop 0 (cs_trace (run cc_auto stepped_unlock_witness)) = true ∧
+  no_crash (cs_trace (run cc_auto stepped_unlock_witness)) = true.
 Proof. vm_compute. repeat split; reflexivity. Qed.
 
 (** ** Several holds *)
